@@ -101,12 +101,29 @@ structure WF (s : Server) : Prop where
   disj : ∀ k, (getK k s.final).isSome → getK k s.incoming = none
 
 
+/-- handle invariant: the handles (`wid`) of the writers in progress are pairwise distinct and were
+    all issued (`< nextId`, never reused); the handles registered in `conns`
+    (`_bucket_writer_disconnect_markers`) are pairwise distinct and were all issued.  Together with
+    `WF.incKeys` (one writer per incoming file) this makes writers, incoming files and live handles
+    correspond one-to-one, and a registered handle denotes either the live writer it was registered
+    for or nothing (closed / aborted: a stale entry can never denote another writer). -/
+structure WFH (s : Server) : Prop where
+  widLt : ∀ e ∈ s.incoming, e.2.1.wid < s.nextId
+  widNodup : (s.incoming.map (fun e => e.2.1.wid)).Nodup
+  connLt : ∀ p ∈ s.conns, p.1 < s.nextId
+  connNodup : (s.conns.map (·.1)).Nodup
+
 /-! ### the specification's transition relation -/
 
 /-- well-formed operation: a lease record is 72 bytes (`struct.pack(">L32s32sL", …)`) -/
 def OpOk : Op → Prop
   | .alloc _ _ _ rec _ _ => rec.length = 72
   | _ => True
+
+def FOpOk : FOp → Prop
+  | .direct op => OpOk op
+  | .allocConn _ _ _ _ rec _ _ => rec.length = 72
+  | .disconnect _ => True
 
 /-- One step of the specification "map (SI, shnum) → write-once byte array with an in-progress
     flag".  Handles (`wid`) are resolved to their key through the concrete writer table `s`.
